@@ -765,6 +765,26 @@ func (c *Case) Exec(t *eng.T) {
 
 // ---------- shadowing: tag scope > context > globals ----------
 
+// TagBoundCase: names bound by tags from OTHER names of the surrounding scope (every right-hand side is evaluated
+// where the tag is written) and paths through them.
+type TagBoundCase struct {
+	Src  string `json:"src"`
+	Want string `json:"want"`
+}
+
+func (c *TagBoundCase) ID() string { return "tag-bound: " + c.Src }
+
+func (c *TagBoundCase) Exec(t *eng.T) {
+	t.Nontrivial()
+	one, two := 1, uint8(2)
+	ctx := pongo2.Context{"x": map[string]any{"v": "X"}, "y": map[string]any{"v": "Y"}, "z": map[string]any{"v": "Z"}, "l": []string{"l0", "l1", "l2"}, "pk": &one, "pk8": &two, "arr": [3]int{10, 11, 12}, "s": "héllo"}
+	out := px.Render(nil, c.Src, ctx)
+	t.Outcome(out.String())
+	if out.Failed() || out.S != c.Want {
+		t.Fail("resolve:tag-bound", "%s renders %s, want %q", c.Src, out, c.Want)
+	}
+}
+
 type ShadowCase struct {
 	Mask int `json:"mask"` // bit0 globals, bit1 context, bit2 tag scope (with), bit3 tag scope (set)
 }
@@ -926,6 +946,21 @@ func run(r *eng.Runner) {
 		}
 	}
 
+	r.Group("tag-bound", "c08.tagbound", "with pairs that exchange or chain names of the surrounding scope (new and old style), for/set/macro bindings used in paths; subscripts whose key is a pointer to a number")
+	for _, tb := range []TagBoundCase{
+		{`{% with x=y y=x %}{{ x.v }}/{{ y.v }}{% endwith %}|{{ x.v }}/{{ y.v }}`, "Y/X|X/Y"},
+		{`{% with x=y y=z z=x %}{{ x.v }}{{ y.v }}{{ z.v }}{% endwith %}`, "YZX"},
+		{`{% with y.v as x x.v as y %}{{ x }}/{{ y }}{% endwith %}`, "Y/X"},
+		{`{% with a=x.v b=a %}[{{ a }}|{{ b }}]{% endwith %}`, "[X|]"},
+		{`{% set a = x %}{% with x=y a=x %}{{ a.v }}{{ x.v }}{% endwith %}{{ a.v }}`, "XYX"},
+		{`{% for x in l %}{% with y=x x=y %}{{ y }}{{ x.v }};{% endwith %}{% endfor %}`, "l0Y;l1Y;l2Y;"},
+		{`{% macro m(x, y) %}{% with x=y y=x %}{{ x }}{{ y }}{% endwith %}{% endmacro %}{{ m("1", "2") }}`, "21"},
+		{`{{ l[pk] }}|{{ l[pk8] }}|{{ arr[pk] }}|{{ l[pk]|upper }}`, "l1|l2|11|L1"},
+		{`{% with k=pk %}{{ l[k] }}{% endwith %}{% set j = pk8 %}{{ arr[j] }}`, "l112"},
+	} {
+		tb := tb
+		r.Do(&tb)
+	}
 	r.Group("shadowing", "c08.shadow", "the same name in globals / caller context / tag scope (with) / tag scope (set) / an omitted macro parameter: all 32 presence combinations")
 	for m := 0; m < 32; m++ {
 		r.Do(&ShadowCase{Mask: m})
@@ -935,6 +970,7 @@ func run(r *eng.Runner) {
 
 func init() {
 	eng.RegisterCase("c08.case", func() eng.Case { return &Case{} })
+	eng.RegisterCase("c08.tagbound", func() eng.Case { return &TagBoundCase{} })
 	eng.RegisterCase("c08.shadow", func() eng.Case { return &ShadowCase{} })
 	eng.Register(&eng.Check{
 		ID:    "C08",
